@@ -188,6 +188,7 @@ Why(r, cfg, st, e, cons, rs) ==
 
 Dev == "raw-omits-partial-multisig"
 DevDict == "dict-import-send-raises"
+DevSign == "resign-scrambles-unattributed-signatures"
 \* how the copy that wallet w holds after event i arrived there: "dict" when it descends from a dictionary import
 \* through object / file hand-offs only (those pass the stored serialization on; a raw import or a new proposal does not)
 RECURSIVE ArrivedAs(_, _, _)
@@ -197,25 +198,32 @@ ArrivedAs(evs, i, w) == IF i < 1 THEN "new"
                         ELSE IF evs[i].a.op \in {"propose", "send_to"} /\ evs[i].a.w = w THEN "new"
                         ELSE ArrivedAs(evs, i - 1, w)
 \* C: candidate specification states [st, dev] consistent with everything observed so far; dev = the deviations
-\* that explanation needs (a sequence of names)
-RECURSIVE Walk(_, _, _, _, _, _)
-Walk(r, cfg, C, cons, rs, i) ==
-    IF i > Len(r.events)
-    THEN [v |-> "ok", at |-> 0, dev |-> IF \E c \in C : c.dev = <<>> THEN <<>> ELSE (CHOOSE c \in C : TRUE).dev]
+\* that explanation needs (a sequence of names).  T: wallets whose copy descends from a Sign in the input class of
+\* DevSign (its signature list may be corrupted; what such a copy shows is attributed to that deviation).
+DevsOf(S) == IF \E c \in S : c.dev = <<>> THEN <<>> ELSE (CHOOSE c \in S : TRUE).dev
+RECURSIVE Walk(_, _, _, _, _, _, _)
+Walk(r, cfg, C, cons, rs, i, T) ==
+    IF i > Len(r.events) THEN [v |-> "ok", at |-> 0, dev |-> DevsOf(C)]
     ELSE LET e == r.events[i]
              a == A(e.a)
              N == UNION { {[st |-> x, dev |-> c.dev] : x \in Act(cfg, c.st, a, {})}
                           \cup {[st |-> x, dev |-> IF Dev \in SetOf(c.dev) THEN c.dev ELSE Append(c.dev, Dev)] :
                                    x \in Act(cfg, c.st, a, {Dev}) \ Act(cfg, c.st, a, {})} : c \in C }
              K == {c \in N : Why(r, cfg, c.st, e, cons, rs) = ""}
+             via == ArrivedAs(r.events, i - 1, a.w)
              \* the call raised: only the listed deviation explains that (the ceremony ends there)
-             D == {c \in C : a.op = "send" /\ e.pushed /\ SendRaises(cfg, c.st, a.w, ArrivedAs(r.events, i - 1, a.w), {DevDict})} IN
+             D == {c \in C : a.op = "send" /\ e.pushed /\ SendRaises(cfg, c.st, a.w, via, {DevDict})}
+             T1 == CASE a.op = "sign" /\ (\E c \in C : SignScrambles(cfg, c.st, a.w, via, {DevSign})) -> T \cup {a.w}
+                     [] a.op = "handoff" -> IF a.w \in T THEN T \cup {a.v} ELSE T \ {a.v}
+                     [] a.op \in {"propose", "send_to"} -> T \ {a.w}
+                     [] OTHER -> T IN
          IF N = {} THEN [v |-> "action-not-enabled-in-the-specification", at |-> i, dev |-> <<>>]
          ELSE IF ~e.ok THEN (IF D # {} /\ i = Len(r.events)
-                             THEN [v |-> "ok", at |-> 0,
-                                   dev |-> Append(IF \E c \in D : c.dev = <<>> THEN <<>> ELSE (CHOOSE c \in D : TRUE).dev, DevDict)]
+                             THEN [v |-> "ok", at |-> 0, dev |-> Append(DevsOf(D), DevDict)]
                              ELSE [v |-> "action-raised", at |-> i, dev |-> <<>>])
-         ELSE IF K # {} THEN Walk(r, cfg, K, cons, rs, i + 1)
+         ELSE IF K # {} THEN Walk(r, cfg, K, cons, rs, i + 1, T1)
+         \* a possibly corrupted signature list: nothing further of this ceremony is judged
+         ELSE IF TargetOf(a) \in T1 THEN [v |-> "ok", at |-> 0, dev |-> Append(DevsOf(C), DevSign)]
          ELSE LET P == {c \in N : c.dev = <<>>}
                   c0 == CHOOSE c \in (IF P # {} THEN P ELSE N) : TRUE IN
               [v |-> Why(r, cfg, c0.st, e, cons, rs), at |-> i, dev |-> <<>>]
@@ -225,7 +233,7 @@ JudgeCeremony(r) ==
         need == Concat([k \in 1..Len(cons) |-> cons[k].need]) IN
     IF need # <<>> THEN [v |-> "need", at |-> 0, dev |-> <<>>, need |-> need, cons |-> <<>>]
     ELSE LET cfg == Cfg(r)
-             res == Walk(r, cfg, {[st |-> InitS(cfg), dev |-> <<>>]}, cons, ScriptBytes(r), 1) IN
+             res == Walk(r, cfg, {[st |-> InitS(cfg), dev |-> <<>>]}, cons, ScriptBytes(r), 1, {}) IN
          [v |-> res.v, at |-> res.at, dev |-> res.dev, need |-> <<>>, cons |-> [k \in 1..Len(cons) |-> cons[k].v]]
 
 Judge(r) == IF r.kind = "agree" THEN JudgeAgree(r) ELSE JudgeCeremony(r)
